@@ -54,6 +54,14 @@ pub fn number_words(l: L) -> Vec<String> {
             push_words(&mut out, &spell::spell(l, n, Var { split: true, ..v }));
         }
     }
+    // compound (unsplit) spellings: one-word hundreds, thousands and their combinations
+    for n in [21u64, 22, 28, 101, 120, 200, 1100, 2000, 2021, 12_000, 20_000, 100_000, 200_000, 1_900] {
+        for (_, v) in spell::axes(l) {
+            if !v.split {
+                push_words(&mut out, &spell::spell(l, n, v));
+            }
+        }
+    }
     for n in (1..=20).chain((30..=100).step_by(10)).chain([1000, 1_000_000]) {
         if n > ordspell::max_rank(l) {
             continue;
